@@ -23,6 +23,7 @@ type op struct {
 	kind byte // 'A' add Every(d), 'X' add seconds-spec, 'R' remove k-th added, 'E' Entries, 'S' Start, 'P' Stop, 'W' wait last Stop ctx, 'Z' sleep, 'G' release blocked jobs
 	d    int  // tenths of a second (A: period, Z: duration) / index (R)
 	blk  bool // A/X: the job parks until released
+	pan  bool // A/X: the job panics on its first run (the chain's Recover wrapper catches it)
 	spec string
 }
 
@@ -30,6 +31,9 @@ func (o op) String() string {
 	b := ""
 	if o.blk {
 		b = "b"
+	}
+	if o.pan {
+		b += "p"
 	}
 	switch o.kind {
 	case 'A':
@@ -139,6 +143,12 @@ func mkExec(script []op, timeline bool, cf cfg) *mc.Exec {
 			copts = append(copts, cron.WithChain(cron.DelayIfStillRunning(cron.DiscardLogger)))
 		case "skip":
 			copts = append(copts, cron.WithChain(cron.SkipIfStillRunning(cron.DiscardLogger)))
+		case "recover-delay":
+			copts = append(copts, cron.WithChain(cron.Recover(cron.DiscardLogger), cron.DelayIfStillRunning(cron.DiscardLogger)))
+		case "recover-skip":
+			copts = append(copts, cron.WithChain(cron.Recover(cron.DiscardLogger), cron.SkipIfStillRunning(cron.DiscardLogger)))
+		case "recover":
+			copts = append(copts, cron.WithChain(cron.Recover(cron.DiscardLogger)))
 		}
 		c := cron.New(copts...)
 		release := mc.NewChan[struct{}]()
@@ -172,10 +182,14 @@ func mkExec(script []op, timeline bool, cf cfg) *mc.Exec {
 		})
 		var lastStop context.Context
 		_ = lastStop
-		mkJob := func(em *entryMon, blk bool) cron.Job {
+		mkJob := func(em *entryMon, blk bool, pan bool) cron.Job {
 			return cron.FuncJob(func() {
 				r := &jobRun{thread: mc.ThreadID(), begin: mc.Step(), end: -1, at: mc.ModelNow()}
 				em.runs = append(em.runs, r)
+				if pan && len(em.runs) == 1 {
+					r.end = mc.Step()
+					panic("job failed (first run)")
+				}
 				if em.removed && r.thread >= em.remThreads {
 					bad("entry %d started (goroutine created) after Remove returned", em.id)
 				}
@@ -214,7 +228,7 @@ func mkExec(script []op, timeline bool, cf cfg) *mc.Exec {
 					}
 					em.blk = o.blk
 					ents = append(ents, em)
-					em.id = c.Schedule(logSched{inner, &em.calls}, mkJob(em, o.blk))
+					em.id = c.Schedule(logSched{inner, &em.calls}, mkJob(em, o.blk, o.pan))
 				case 'R':
 					if o.d < len(ents) {
 						em := ents[o.d]
@@ -578,6 +592,16 @@ func scenarios() []hx.Scenario {
 			add("chain-"+ch+" tl ", append(append([]op(nil), sc...), G), tl, false)
 		}
 		add("chain-"+ch+" race ", []op{A3b, A1, S, Z25, G}, mc.Options{Delay: true, MinBound: 1, Bound: 2, AutoClock: true, Horizon: 4500 * time.Millisecond}, false)
+	}
+	// a job that panics once under the chain the documentation recommends
+	// (Recover outermost): the entry goes on being started at every later
+	// activation, and Stop's context still completes
+	A1p := op{kind: 'A', d: 10, pan: true}
+	for _, ch := range []string{"recover-delay", "recover-skip", "recover"} {
+		cf = cfg{chain: ch}
+		for _, sc := range [][]op{{A1p, S, Z25, Z10}, {A1p, A2, S, Z25, P, Z5}, {A2, A1p, S, Z25, Z10, E}} {
+			add("chain-"+ch+" tl ", append(append([]op(nil), sc...), G), tl, false)
+		}
 	}
 	cf = cfg{}
 	for _, ent := range [][]op{{A2}, {A1, A2}, {A2, X2}, {A2, A1, A3b}} {
